@@ -116,6 +116,10 @@ def run(ctx):
         c18.check_consume(ctx, fx, cfg, 3, "R03.5")
         if cfg == "tokio":
             check_registry_does_not_block_started(ctx, fx, cfg)
+            # R03.8 (shared with C04) "if started returns an error ... the actor terminates as failed": the failure exits of the loops
+            # drop the stop notifier unsent — nothing but `notify` (called on the graceful end only) completes its channel
+            from props import c04 as _c04
+            core.shared(ctx, "R03.8", _c04.check_notifier, ctx, fx, "R03.8")
         # R03.6 (shared with C05) the graceful end "last strong handle dropped" can actually occur: the library's own timer
         # futures hold the actor weakly while they sleep (two timers that each hold an upgraded sender across their sleep keep
         # each other and the actor alive for ever: stopped() never runs)
